@@ -40,6 +40,9 @@ def run(tier, seed, replay=None):
     r.gen_validate("enum-k2-all-pieces", ["tok", "--mode", "enum", "--k", 2], SPEC, CFG, N, classify, core.count_lines)
     r.gen_validate("prefixed-k2-all-pieces", ["tok", "--mode", "prefixed", "--k", 2], SPEC, CFG, N, classify, core.count_lines)
     r.gen_validate("prefixed-k3-core-pieces", ["tok", "--mode", "prefixed", "--k", 3, "--pieces", 13], SPEC, CFG, N, classify, core.count_lines)
+    # after "<a b" / "<a b=" / inside values: all line-break kinds x quotes, '>', whitespace, error characters (k=3 of 12)
+    r.gen_validate("attr-linebreaks-k3", ["tok", "--mode", "prefixed", "--pset", "attr", "--prefix-contains", "<a b", "--k", 3, "--pieces", 12],
+                   SPEC, CFG, N, classify, core.count_lines)
     r.gen_validate("enum-k3-core-pieces", ["tok", "--mode", "enum", "--k", 3, "--pieces", 12], SPEC, CFG, N, classify, core.count_lines)
     if not quick:
         r.gen_validate("enum-k3-all-pieces", ["tok", "--mode", "enum", "--k", 3], SPEC, CFG, N * 4, classify,
